@@ -71,7 +71,10 @@ def gen_case(rng, dyadic=True):
     width_steps = rng.randint(K, 12) if rng.random() < 0.7 else rng.randint(K, 4000)
     base = Fraction(rng.randint(-40, 40)) * Fraction(2) ** e * 64 if dyadic else \
         Fraction(rng.uniform(-3, 3))
+    zero_end = rng.random() < 0.25      # a bound exactly 0 (what derivT passes)
     lb = base
+    if zero_end:
+        lb = Fraction(0) if rng.random() < 0.5 else -width_steps * dx
     ub = lb + width_steps * dx
     if not dyadic:
         # Non-dyadic floats: keep a relative margin 2^-20 above the critical width K*dx.
@@ -104,7 +107,8 @@ def gen_case(rng, dyadic=True):
     deg = DEG[(order, n)]
     coeffs = [rng.randint(-9, 9) for _ in range(deg + 1 if rng.random() < 0.7 else rng.randint(1, deg + 1))]
     return dict(order=order, n=n, x=x, dx=dx, bounds=bounds, coeffs=coeffs, pos=pos,
-                kind=kind, dyadic=dyadic)
+                kind=kind + ("0" if zero_end else ""), dyadic=dyadic,
+                int_bounds=rng.random() < 0.5)
 
 
 def run_impl(case):
@@ -113,8 +117,11 @@ def run_impl(case):
     b = case["bounds"]
     bounds = None
     if b is not None:
-        bounds = (float(b[0]) if b[0] is not None else -np.inf,
-                  float(b[1]) if b[1] is not None else np.inf)
+        def num(v):
+            f = float(v)
+            return int(f) if f == int(f) and case.get("int_bounds") else f
+        bounds = (num(b[0]) if b[0] is not None else -np.inf,
+                  num(b[1]) if b[1] is not None else np.inf)
     res = helpers.derivative(f, float(case["x"]), n=case["n"], order=case["order"],
                              bounds=bounds, dx=float(case["dx"]))
     pts = [Fraction(float(p)) for p in np.asarray(f.pts[0]).ravel()]
@@ -191,8 +198,10 @@ def corr_cases(ctx, cases_with_results):
         ub = "PosInf" if b is None or b[1] is None else "(Fin %s)" % vlib.coq_Q(b[1])
         x = Fraction(float(case["x"]))
         dx = Fraction(float(case["dx"]))
-        mag = sum(abs(Fraction(c)) * max(abs(x), 1) ** i
-                  for i, c in enumerate(case["coeffs"])) / dx ** case["n"] * 20
+        # rounding model: the weighted sum is accurate to a few ulp of sum|c_i f(P_i)|/dx^n
+        absval = lambda q: sum(abs(Fraction(c)) * abs(q) ** i
+                               for i, c in enumerate(case["coeffs"]))
+        mag = sum(absval(p) for p in pts) / dx ** case["n"] * 20
         tol = mag * Fraction(1, 10 ** 9) + Fraction(1, 10 ** 30)
         terms.append("chk %d %d %s %s %s %s [%s] [%s] %s %s" % (
             case["n"], case["order"], vlib.coq_Q(x), vlib.coq_Q(dx), lb, ub,
@@ -345,6 +354,78 @@ def grad_hess_values(ctx, rng, ncases):
                                    key="inexact-hessian-%d" % order)
 
 
+def potential_level(ctx, rng, ncases):
+    """The derivative routines as EffectivePotential uses them (derivT with bounds
+    (0, inf); derivField / deriv2Field2 / deriv2FieldT on the combined (fields, T)
+    array), on a polynomial potential of the exactness class, for float- and
+    integer-typed field input and temperatures within a few steps of T = 0."""
+    import WallGo
+    from WallGo import EffectivePotential, Fields
+
+    class Poly(EffectivePotential):
+        fieldCount = 2
+        effectivePotentialError = 1e-15
+
+        def evaluate(self, fields, temperature):
+            self.seenT.append(np.min(np.asarray(temperature)))
+            f = Fields(fields)
+            a, b = f.getField(0), f.getField(1)
+            T = np.asarray(temperature)
+            return (3 * a ** 2 - 2 * a * b + b ** 2 * T + 0.5 * a ** 3 - a * b * T ** 2
+                    + 0.25 * a ** 4 + 2 * T ** 3 - T * a)
+
+    def exact(a, b, T):
+        dVda = 6 * a - 2 * b + 1.5 * a ** 2 - b * T ** 2 + a ** 3 - T
+        dVdb = -2 * a + 2 * b * T - a * T ** 2
+        dVdT = b ** 2 - 2 * a * b * T + 6 * T ** 2 - a
+        H = [[6 + 3 * a + 3 * a ** 2, -2 - T ** 2], [-2 - T ** 2, 2 * T]]
+        dT = [-2 * b * T - 1, 2 * b - 2 * a * T]
+        return [dVda, dVdb], dVdT, H, dT
+
+    pot = Poly()
+    pot.seenT = []
+    scaleT = rng.choice([0.1, 1.0, 1.1])
+    pot.configureDerivatives(WallGo.VeffDerivativeSettings(
+        temperatureVariationScale=scaleT, fieldValueVariationScale=[1.0, 2.0]))
+    dT = scaleT * 1e-15 ** (1 / 5)
+    for _ in range(ncases):
+        ints = rng.random() < 0.5
+        a, b = (rng.randint(-3, 3), rng.randint(-3, 3)) if ints else \
+            (rng.uniform(-3, 3), rng.uniform(-3, 3))
+        T = rng.choice([0.0, dT, 2 * dT, 2 * dT * (1 + 1e-9), 0.5 * dT, 1.5 * dT,
+                        rng.uniform(0.2, 3.0), rng.uniform(0.2, 3.0)])
+        fields = Fields([a, b])
+        g, dt, H, gt = exact(float(a), float(b), T)
+        case = dict(a=a, b=b, T=T, int_fields=ints, scaleT=scaleT)
+        pot.seenT.clear()
+        got_dt = float(np.asarray(pot.derivT(fields, T)).ravel()[0])
+        ctx.count("potential_level", case)
+        if min(pot.seenT) < 0:
+            ctx.fail_input("EffectivePotential.derivT(T=%r) evaluates the potential at "
+                           "T=%r < 0" % (T, float(min(pot.seenT))),
+                           dict(kind="potential", what="negative T", case=case),
+                           key="derivT-negative-temperature")
+        tol = 1e-6
+        if abs(got_dt - dt) > tol * (1 + abs(dt)):
+            ctx.fail_input("derivT inexact on a cubic-in-T potential: got %r want %r" %
+                           (got_dt, dt), dict(kind="potential", case=case),
+                           key="potential-derivT")
+        got_g = np.asarray(pot.derivField(fields, T)).ravel()
+        got_H = np.asarray(pot.deriv2Field2(fields, T)).reshape(2, 2)
+        got_gt = np.asarray(pot.deriv2FieldT(fields, T)).ravel()
+        for name, got, want, tl in (("derivField", got_g, g, 1e-7),
+                                    ("deriv2Field2", got_H.ravel(), np.ravel(H), 1e-4),
+                                    ("deriv2FieldT", got_gt, gt, 1e-4)):
+            if np.max(np.abs(np.asarray(got) - np.asarray(want))) > tl * (
+                    1 + np.max(np.abs(want))):
+                ctx.fail_input("EffectivePotential.%s inexact on a quartic potential "
+                               "(fields %s, T=%r): got %s want %s" % (
+                                   name, "int" if ints else "float", T,
+                                   np.asarray(got).tolist(), np.asarray(want).tolist()),
+                               dict(kind="potential", fn=name, case=case),
+                               key="potential-" + name)
+
+
 def known_narrow(ctx):
     """Known finding D5: bounds narrower than the stencil."""
     from WallGo import helpers
@@ -418,6 +499,7 @@ def run(ctx):
         check_direct(ctx, case, res, pts, f)
     shapes(ctx, ctx.rng)
     grad_hess_values(ctx, ctx.rng, ctx.n(60, 600))
+    potential_level(ctx, ctx.rng, ctx.n(60, 600))
     known_narrow(ctx)
     ctx.cov["rule"] = (
         "cases = (order, n, x, dx, bounds, integer polynomial of the proved degree); "
